@@ -943,6 +943,93 @@ func c14Mutating(c *fw.Ctx, r *rng.R) {
 			c.Violate("view-wrong:mutating-callback", inP(), fmt.Sprintf("0..%d visited once each, in order; the removed ones behind them at most once", stay-1), fmt.Sprint(seen))
 		}
 	})
+	// lists of ONE kind: the first callback of a typed view turns a not yet visited element into another kind (Replace touches
+	// that slot only): the untouched elements are visited once each, in order, the touched one at most once (as what it is
+	// at that moment or not at all), and the library does not panic
+	hk := r.Intn(3)
+	hn := r.Range(3, 9)
+	hv := r.Intn(4)
+	inH := func() string {
+		return fmt.Sprintf("list of %d %s; typed view %d whose first callback replaces a later element by a value of another kind", hn, []string{"ints", "strings", "floats"}[hk], hv)
+	}
+	guard(c, inH, func() {
+		c.Distinct(inH())
+		c.Count("mutating_callback_cases")
+		l := at.NewList()
+		for i := 0; i < hn; i++ {
+			l.Add([]any{i, fmt.Sprintf("s%d", i), float64(i) + 0.5}[hk])
+		}
+		victim := r.Range(1, hn-1)
+		other := []any{"other kind", 7, true}[hk]
+		var seen []int
+		calls := 0
+		act := func(idx int) {
+			calls++
+			seen = append(seen, idx)
+			if calls == 1 {
+				l.Replace(victim, other)
+			}
+		}
+		ofI := func(v int) int { return v }
+		ofS := func(v string) int { n := 0; fmt.Sscanf(v, "s%d", &n); return n }
+		ofF := func(v float64) int { return int(v) }
+		pan, msg := drive.Protect(func() {
+			switch hk {
+			case 0:
+				switch hv {
+				case 0:
+					l.ForEachInt(func(v int) { act(ofI(v)) })
+				case 1:
+					l.MapInts(func(v int) any { act(ofI(v)); return v })
+				case 2:
+					l.ReduceInts(0, func(a, v int) int { act(ofI(v)); return a })
+				default:
+					l.FilterInts(func(v int) bool { act(ofI(v)); return true })
+				}
+			case 1:
+				switch hv {
+				case 0:
+					l.ForEachString(func(v string) { act(ofS(v)) })
+				case 1:
+					l.MapStrings(func(v string) any { act(ofS(v)); return v })
+				case 2:
+					l.ReduceStrings("", func(a, v string) string { act(ofS(v)); return a })
+				default:
+					l.FilterStrings(func(v string) bool { act(ofS(v)); return true })
+				}
+			default:
+				switch hv {
+				case 0:
+					l.ForEachFloat(func(v float64) { act(ofF(v)) })
+				case 1:
+					l.MapFloats(func(v float64) any { act(ofF(v)); return v })
+				case 2:
+					l.ReduceFloats(0, func(a, v float64) float64 { act(ofF(v)); return a })
+				default:
+					l.FilterFloats(func(v float64) bool { act(ofF(v)); return true })
+				}
+			}
+		})
+		if pan {
+			c.Violate("view-wrong:mutating-callback", inH(), "the iteration ends normally (the callback itself does not panic)", "panic: "+msg)
+			return
+		}
+		var want []int
+		for i := 0; i < hn; i++ {
+			if i != victim {
+				want = append(want, i)
+			}
+		}
+		var got []int
+		for _, x := range seen {
+			if x != victim {
+				got = append(got, x)
+			}
+		}
+		if fmt.Sprint(got) != fmt.Sprint(want) || len(seen) > len(want)+1 {
+			c.Violate("view-wrong:mutating-callback", inH(), fmt.Sprintf("the untouched elements %v once each, in order (element %d at most once)", want, victim), fmt.Sprint(seen))
+		}
+	})
 	// lists: a typed view whose callback turns a not yet visited element of another kind into one of its own kind
 	// (Replace touches that one slot only): every int that was there from the start is still visited once, in order
 	inR := func() string {
